@@ -23,7 +23,7 @@ Cells == 0 .. (NCuts - 2)
 Hole == -3
 Zero == 0
 Absent == -1                       \* Read result for a cell beyond EOF
-Modes == 0 .. 3                    \* init, uninit, keep_size, zero -- all the same at this level
+Modes == 0 .. 4                    \* init, uninit, keep_size, zero, zero+keep_size
 IsTag(c) == c >= 1
 Shown(c) == IF c = Hole THEN Zero ELSE c        \* what a reader sees in a cell below EOF
 Max(x, y) == IF x >= y THEN x ELSE y
@@ -65,7 +65,7 @@ Punch(f, a, b) == /\ a < b /\ Step("punch", f, a, b)
                   /\ cell' = [cell EXCEPT ![f] = PunchCells(@, a, b)]
                   /\ UNCHANGED <<size, res>>
 \* Modes 0 (init) and 3 (zero) are "allocate and extend": the caller moves EOF to b afterwards.  Modes 1 (uninit) and
-\* 2 (keep_size) never move EOF; how far beyond EOF they preallocate is up to the mapping type (a block-mapped file
+\* 2 (keep_size) and 4 (zero, keep_size) never move EOF; how far beyond EOF they preallocate is up to the mapping type (a block-mapped file
 \* cannot hold uninitialized blocks, so it preallocates up to `lim`, the end of its last block, only).
 Grows(m) == m \in {0, 3}
 Fallocate(f, a, b, m, lim) == /\ a < b /\ a <= lim /\ lim <= b /\ (Grows(m) => lim = b) /\ (lim < b => lim >= size[f])
